@@ -448,8 +448,10 @@ func (fr *Frame) evalBuiltin(st *State, call *ast.CallExpr, name string) []*Term
 			na := Fresh("app", s.S.Fields[0].S)
 			j := Var("j!a", IntSort)
 			st.Assume(Forall([]*Term{j}, Eq(Select(na, j), Ite(Lt(j, Acc(s, "len")), Select(Acc(s, "arr"), j), Select(Acc(o, "arr"), Sub(j, Acc(s, "len"))))), []*Term{Select(na, j)}))
-			j2 := Var("j!b", IntSort)
-			st.Assume(Forall([]*Term{j2}, Implies(Ge(j2, IntLit(0)), Eq(Select(na, Add(j2, Acc(s, "len"))), Select(Acc(o, "arr"), j2))), []*Term{Select(Acc(o, "arr"), j2)}))
+			if pat := Select(Acc(o, "arr"), Var("j!b", IntSort)); pat.Op == "select" && !strings.Contains(pat.String(), "as const") {
+				j2 := Var("j!b", IntSort)
+				st.Assume(Forall([]*Term{j2}, Implies(Ge(j2, IntLit(0)), Eq(Select(na, Add(j2, Acc(s, "len"))), Select(Acc(o, "arr"), j2))), []*Term{pat}))
+			}
 			return []*Term{Ctor(s.S, na, Add(Acc(s, "len"), Acc(o, "len")))}
 		}
 		arr := Acc(s, "arr")
@@ -459,8 +461,10 @@ func (fr *Frame) evalBuiltin(st *State, call *ast.CallExpr, name string) []*Term
 			arr = Store(arr, n, fr.evalAs(st, a, et))
 			// array-theory tautology stated with a trigger on the old array: lets the solver carry
 			// witnesses found in the old slice over to the appended one
-			j := Var("j!p", IntSort)
-			st.Assume(Forall([]*Term{j}, Implies(Neq(j, n), Eq(mk("select", arr.S.V, arr, j), Select(prev, j))), []*Term{Select(prev, j)}))
+			if !strings.Contains(prev.String(), "as const") {
+				j := Var("j!p", IntSort)
+				st.Assume(Forall([]*Term{j}, Implies(Neq(j, n), Eq(mk("select", arr.S.V, arr, j), Select(prev, j))), []*Term{Select(prev, j)}))
+			}
 			n = Add(n, IntLit(1))
 		}
 		return []*Term{Ctor(s.S, arr, n)}
@@ -822,6 +826,10 @@ func (fr *Frame) applyContract(st *State, fc *FuncContract, fn *types.Func, sig 
 	}
 	old := st.Clone()
 	// havoc modifies
+	if fc.Options["noframe"] != "" {
+		// the callee's frame is not checked: assume nothing survives the call
+		e.havocAll(st)
+	}
 	for _, m := range fc.Modifies {
 		fr.havocModItem(st, m, b, pkgPath, call)
 	}
@@ -833,9 +841,22 @@ func (fr *Frame) applyContract(st *State, fc *FuncContract, fn *types.Func, sig 
 		results = append(results, v)
 	}
 	b = cn.bind(recv, args, results)
+	callerSnaps := st.snaps
+	st.snaps = map[string]*State{} // the callee's at(label, ..) states are not visible here: such clauses are dropped
 	for _, c := range fc.Ensures {
-		st.Assume(fr.evalSpecBoolPkg(st, c.Expr, b, old, pkgPath))
+		func() {
+			defer func() {
+				if r := recover(); r != nil {
+					if se, ok := r.(specErr); ok && strings.Contains(se.msg, "label not reached") {
+						return
+					}
+					panic(r)
+				}
+			}()
+			st.Assume(fr.evalSpecBoolPkg(st, c.Expr, b, old, pkgPath))
+		}()
 	}
+	st.snaps = callerSnaps
 	if fc.Options["noreturn"] != "" {
 		st.Assume(False)
 	}
@@ -926,7 +947,7 @@ func (fr *Frame) checkCallPre(st *State, fn *types.Func, recv *Term, args []*Ter
 
 func (fr *Frame) inline(st *State, fi *FuncInfo, recv *Term, args []*Term, call *ast.CallExpr) []*Term {
 	e := fr.e
-	if fr.depth > 6 {
+	if fr.depth > 14 {
 		fr.unsupported(call, "needs-contract: inlining depth exceeded at %s", shortKey(fi.Key))
 	}
 	for p := fr; p != nil; p = p.parent {
@@ -945,7 +966,8 @@ func (fr *Frame) inline(st *State, fi *FuncInfo, recv *Term, args []*Term, call 
 	for i := 0; i < sig.Params().Len(); i++ {
 		p := sig.Params().At(i)
 		if fi.boxed[p] {
-			fr.unsupported(call, "boxed parameter %s in inlined %s", p.Name(), shortKey(fi.Key))
+			nf.bindBoxed(st, p, args[i])
+			continue
 		}
 		st.vars[p] = args[i]
 	}
@@ -1070,4 +1092,16 @@ func (fr *Frame) inlineClosure(st *State, fl *ast.FuncLit, call *ast.CallExpr) [
 		res = append(res, st.vars[rv])
 	}
 	return res
+}
+
+// bindBoxed binds an address-taken parameter: it lives in a fresh heap cell.
+func (fr *Frame) bindBoxed(st *State, p *types.Var, val *Term) {
+	e := fr.e
+	ref := e.alloc(st, p.Type(), p.Name())
+	st.vars[p] = ref
+	if isStructVal(p.Type()) {
+		e.storeObj(st, ref, p.Type(), val)
+	} else {
+		e.store(st, &Loc{Kind: LGlobal, Key: "box$" + p.Name() + fmt.Sprint(p.Pos()), T: p.Type()}, val)
+	}
 }
